@@ -155,6 +155,12 @@ def run(ctx: core.Ctx):
             tpl = gen_raw_text(rng)
             holes = ref_count(tpl)
             grammar, hpos = False, None
+            # any text at all - unbalanced quotes, a dangling backslash: the library's placeholders are the question marks the
+            # token-level reference finds (strings end at their own quote character, a backslash escapes inside '...' and "...")
+            from mysql_mimic.prepared import find_params
+            fp = find_params(tpl.decode("latin1"))
+            if fp != ref_positions(tpl) and witness is None:
+                witness = dict(kind="placeholder-positions", template=tpl.decode("latin1"), library=fp, reference=ref_positions(tpl))
         qa = rng.random() < 0.3
         pos = [pk.gen_param(rng, named=False, hostile=True) for _ in range(holes)]
         flags = rng.choice([0, 1]) | (8 if qa and (holes == 0 or rng.random() < 0.5) else 0)
